@@ -605,7 +605,10 @@ def ob_function_forms(Ne, nPg, dim):
              ("constant vector, matrix field", cst(dim), fld(dim, dim), "i,epij->epj"), ("vector field, matrix field", fld(dim), fld(dim, dim), "epi,epij->epj")]
     for what, a, b, subs in pairs:
         want = np.einsum(subs, np.asarray(a), np.asarray(b))
-        for form, f in (("a @ b", lambda: a @ b), ("np.matmul(a, b)", lambda: np.matmul(a, b))):
+        forms = [("a @ b", lambda: a @ b), ("np.matmul(a, b)", lambda: np.matmul(a, b)), ("np.dot(a, b)", lambda: np.dot(a, b))]
+        if hasattr(np.linalg, "matmul"):
+            forms.append(("np.linalg.matmul(a, b)", lambda: np.linalg.matmul(a, b)))
+        for form, f in forms:
             try:
                 got = f()
             except Exception as ex:
